@@ -109,26 +109,39 @@ def cross_check(ob, timeout_ms):
     return None
 
 
-def solve_one(ob, timeout_ms=10000, use_cvc5=True, cross=False, finite=True, skip_short=False):
+def solve_one(ob, timeout_ms=10000, use_cvc5=True, cross=False, finite=True, skip_short=False, early_cvc5_ms=3000, stop_after_early=False, prefer_cvc5=False):
     """Sets ob.verdict in {'discharged','refuted','unknown'}.
     Schedule: z3 (short) -> finite-instantiation model search -> z3 (full budget) -> cvc5 -> z3 4.8 CLI."""
     t0 = time.time()
     ob.solver = "z3-%s" % z3.get_version_string()
+    if prefer_cvc5 and not skip_short:
+        # this obligation was last discharged by cvc5 (baseline hint): ask it first
+        textp = to_smt2(ob.assumptions, ob.goal)
+        outp, dtp = run_cli([CVC5, "--strings-exp", "--tlimit=%d" % max(early_cvc5_ms, 6000)], textp, max(early_cvc5_ms, 6000) / 1000)
+        ob.time = getattr(ob, "time", 0.0) + dtp
+        if outp == "unsat":
+            ob.verdict = "discharged"
+            ob.solver = "cvc5-1.0.3"
+            return ob
+        early_cvc5_ms = 0
+        t0 = time.time()
     if skip_short:
         ob.verdict = "unknown"
         r = z3.unknown
     else:
         r = _z3_check(ob, min(2000, timeout_ms))
     ob.time = getattr(ob, "time", 0.0) + time.time() - t0
-    if ob.verdict == "unknown" and use_cvc5 and not skip_short:
+    if ob.verdict == "unknown" and use_cvc5 and not skip_short and early_cvc5_ms:
         # cvc5 proves many quantified goals at once that z3 leaves open: a short try before the counter-model search
         text0 = to_smt2(ob.assumptions, ob.goal)
-        out0, dt0 = run_cli([CVC5, "--strings-exp", "--tlimit=%d" % min(3000, timeout_ms)], text0, min(3000, timeout_ms) / 1000)
+        out0, dt0 = run_cli([CVC5, "--strings-exp", "--tlimit=%d" % early_cvc5_ms], text0, early_cvc5_ms / 1000)
         ob.time += dt0
         if out0 == "unsat":
             ob.verdict = "discharged"
             ob.solver = "cvc5-1.0.3"
             return ob
+    if stop_after_early:
+        return ob
     if ob.verdict == "unknown" and finite:
         # counter-model search on a finite instantiation (weaker formula: the model is only a
         # candidate, confirmed or discarded by native replay)
